@@ -397,6 +397,30 @@ def facts_at(body, bb):
     return out
 
 
+def thread_bool(body, bb):
+    """`matches!(x, P)` and `a && b` materialise a bool: an arm assigns a constant to a temporary and the join block switches
+    on that temporary.  If block bb does only that, return the block the constant leads to; else bb."""
+    blk = body.blocks[bb]
+    t = blk['term']
+    if not t or t['k'] != 'goto':
+        return bb
+    consts = [(st['p']['l'], st['rv']['op'].get('v')) for st in blk['stmts']
+              if st['k'] == 'assign' and not st['p']['p'] and st['rv']['k'] == 'use' and st['rv']['op'].get('k') == 'const'
+              and st['rv']['op'].get('ty') == 'bool']
+    if len(consts) != 1 or len([st for st in blk['stmts'] if st['k'] == 'assign']) != 1:
+        return bb
+    l, v = consts[0]
+    nxt = body.blocks[t['target']]
+    nt = nxt['term']
+    if nxt['stmts'] or not nt or nt['k'] != 'switch' or nt['discr'].get('k') not in ('copy', 'move') or nt['discr']['p']['l'] != l or nt['discr']['p']['p']:
+        return bb
+    v = 1 if v in (1, True) else 0
+    for vv, s_ in nt['targets']:
+        if vv == v:
+            return s_
+    return nt['otherwise']
+
+
 def error_blocks(body):
     """blocks that set an error value which must end the function with that error: a whole definition of the return slot
     (local 0) - or of the return slot of an inlined `helper(..)?` call (locals flagged err_exit by engine/inline.py) - by an
